@@ -204,6 +204,9 @@ func (sid SampleID) Validate() error {
 	if sid.ShareIndex < 0 {
 		return fmt.Errorf("%w: ShareIndex: %d < 0", ErrInvalidID, sid.ShareIndex)
 	}
+	if sid.ShareIndex > math.MaxUint16 {
+		return fmt.Errorf("%w: ShareIndex: %d does not fit the 16-bit field of the identifier", ErrInvalidID, sid.ShareIndex)
+	}
 	return sid.RowID.Validate()
 }
 
